@@ -214,7 +214,9 @@ def batchCheck (trxKnown : List Bool) (ids : List String) (endpointsKnown : List
 
 /-! ## requests_aggregation -/
 
-/-- what `compare_reqs` looks at (everything except id, bandwidth, N/M, bidir, cost …) is bundled in `key`;
+/-- what `compare_reqs` looks at (source, destination, transceiver type and mode, baud rate, route constraints, spacing,
+power, channel count, band, format, OSNR, roll-off, tx power AND the bidirectional flag — /repo fix: a bidirectional
+request is never merged with a unidirectional one; not: id, bandwidth, N/M, cost) is bundled in `key`;
 `parts` = the ids joined so far (rendered with `" | "`) -/
 structure AReq (κ α : Type) where
   pos : Nat                 -- position in the original request list
